@@ -37,7 +37,17 @@ class verlet(Sweeper):
 
         self.qQ = np.dot(self.coll.weights, self.coll.Qmat[1:, 1:])
 
-    def __get_Qd(self):
+    def updateVariableCoeffs(self, k):
+        """
+        Rebuild the integration matrices if one of the underlying generators depends on the sweep index
+
+        Args:
+            k (int): index of the sweep (1 for the first one, ...)
+        """
+        if self.genQI.isKDependent() or self.genQE.isKDependent():
+            [self.QT, self.Qx, self.QQ] = self.__get_Qd(k=k)
+
+    def __get_Qd(self, k=None):
         """
         Get integration matrices for 2nd-order SDC
 
@@ -49,8 +59,8 @@ class verlet(Sweeper):
         """
 
         # set implicit and explicit Euler matrices
-        QI = self.get_Qdelta_implicit(self.params.QI)
-        QE = self.get_Qdelta_explicit(self.params.QE)
+        QI = self.get_Qdelta_implicit(self.params.QI, k=k)
+        QE = self.get_Qdelta_explicit(self.params.QE, k=k)
 
         # trapezoidal rule
         QT = 0.5 * (QI + QE)
